@@ -19,16 +19,35 @@ import (
 type vc57Lister struct {
 	t   restic.FileType
 	ids []restic.ID
+	// interruption after `after` delivered entries (after < 0: none): the backend fails with an error of
+	// its own, or the caller's context is cancelled (interrupt() does that) and the listing stops with ctx.Err()
+	after     int
+	fail      error
+	interrupt func()
 }
+
+var errVc57Backend = errors.New("vc57: backend listing failed")
 
 func (l *vc57Lister) List(ctx context.Context, t restic.FileType, fn func(restic.ID, int64) error) error {
 	if t != l.t {
 		return nil
 	}
-	for _, id := range l.ids {
+	for i := 0; i <= len(l.ids); i++ {
+		if l.after == i {
+			if l.fail != nil {
+				return l.fail
+			}
+			if l.interrupt != nil {
+				l.interrupt()
+			}
+		}
 		if ctx.Err() != nil {
 			return ctx.Err()
 		}
+		if i == len(l.ids) {
+			break
+		}
+		id := l.ids[i]
 		if err := fn(id, 10); err != nil {
 			return err
 		}
@@ -47,6 +66,19 @@ func vc57Universe() []string {
 		"b0" + strings.Repeat("c", 62),
 		strings.Repeat("0", 63) + "1",
 		strings.Repeat("f", 64),
+	}
+}
+
+// vc57Universe2: IDs with long common prefixes: 7, 8, 9 and 16 hex characters shared with the first one
+// (8 characters is the length of the short form restic prints).
+func vc57Universe2() []string {
+	return []string{
+		"1234567800000000" + strings.Repeat("a", 48),
+		"123456781" + strings.Repeat("b", 55),
+		"1234567801" + strings.Repeat("c", 54),
+		"1234567800000000" + strings.Repeat("d", 48),
+		"12345679" + strings.Repeat("e", 56),
+		"92345678" + strings.Repeat("0", 56),
 	}
 }
 
@@ -113,73 +145,129 @@ func vc57Class(err error) string {
 }
 
 func TestVerif_C57(t *testing.T) {
-	res := kit.NewResult("one case = one call of the real restic.Find(lister, file type, prefix): file sets = all subsets of <= 5 of 8 crafted IDs sharing prefixes of length 0,1,2,3,63 (listing order shuffled by seed), file types snapshot and key; prefixes = every listed length (quick: 0,1,2,3,4,8,31,32,33,62,63,64; thorough: 0..64) of every crafted ID plus over-long, full-length-absent, diverging, non-hex, inner-part, blank and empty strings; distinct by (set, type, prefix); non-trivial when at least one file matches the prefix")
+	res := kit.NewResult("one case = one call of the real restic.Find(lister, file type, prefix): file sets = all subsets of <= 5 of 8 crafted IDs sharing prefixes of length 0,1,2,3,63 (listing order shuffled by seed), file types snapshot and key; prefixes = every listed length (quick: 0,1,2,3,4,8,31,32,33,62,63,64; thorough: 0..64) of every crafted ID plus over-long, full-length-absent, diverging, non-hex, inner-part, blank and empty strings; a second family: all subsets of <= 4 of 6 IDs sharing 7, 8, 9 and 16 leading hex characters x prefixes of length 0,1,7,8,9,10,11,15,16,17,63,64; each question is also put to restic.MemorizeList's copy of the listing (second family: always; first: sampled) and to listings that are interrupted after k delivered entries for every k in 0..n, by a backend error or by cancelling the caller's context (sampled) -- an interrupted listing must give an error, never a match; distinct by (family, set, way, k, prefix); non-trivial when at least one file matches the prefix")
 	defer res.Save("")
 	recs := kit.NewNDJSON("recs.ndjson")
 	defer recs.Close()
-	u := vc57Universe()
-	var uid []restic.ID
-	for _, s := range u {
-		id, err := restic.ParseID(s)
-		if err != nil {
-			res.Problem("crafted id %q: %v", s, err)
+	r := kit.Rand(57)
+	n := 0
+	ctx := context.Background()
+	call := func(via string, ft restic.FileType, ids []restic.ID, p string, after int, names []string, set []int, uni int) {
+		got, class := "", ""
+		func() {
+			defer func() {
+				if rec := recover(); rec != nil {
+					class, got = "panic", ""
+					res.Count("panics", 1)
+				}
+			}()
+			cctx, cancel := context.WithCancel(ctx)
+			defer cancel()
+			l := &vc57Lister{t: ft, ids: ids, after: -1}
+			var lister restic.Lister = l
+			switch via {
+			case "find-interrupted-backend-error":
+				l.after, l.fail = after, errVc57Backend
+			case "find-interrupted-context-cancelled":
+				l.after, l.interrupt = after, cancel
+			case "find-memorized":
+				m, err := restic.MemorizeList(cctx, l, ft)
+				if err != nil {
+					res.Problem("MemorizeList: %v", err)
+					return
+				}
+				lister = m
+			}
+			id, err := restic.Find(cctx, lister, ft, p)
+			class = vc57Class(err)
+			if err == nil {
+				got = id.String()
+			} else if !id.IsNull() {
+				got = id.String() // an ID returned together with an error
+			}
+		}()
+		if class == "" {
 			return
 		}
-		uid = append(uid, id)
+		rec := map[string]any{"via": via, "ids": names, "prefix": p, "res": got, "err": class}
+		if after >= 0 {
+			rec["intr"] = after
+		}
+		recs.Write(rec)
+		matches := 0
+		for _, nm := range names {
+			if strings.HasPrefix(nm, p) {
+				matches++
+			}
+		}
+		res.Case(fmt.Sprintf("%d%v|%s|%d|%q", uni, set, via, after, p), matches > 0)
+		res.Count("outcome_"+class, 1)
+		res.Count("via_"+via, 1)
 	}
+	drive := func(uni int, u []string, prefixes []string, sets [][]int, stride int) {
+		var uid []restic.ID
+		for _, s := range u {
+			id, err := restic.ParseID(s)
+			if err != nil {
+				res.Problem("crafted id %q: %v", s, err)
+				return
+			}
+			uid = append(uid, id)
+		}
+		for si, set := range sets {
+			order := append([]int{}, set...)
+			rand.New(rand.NewSource(kit.Seed()*977+int64(si))).Shuffle(len(order), func(i, j int) { order[i], order[j] = order[j], order[i] })
+			names := []string{}
+			var ids []restic.ID
+			for _, k := range order {
+				names = append(names, u[k])
+				ids = append(ids, uid[k])
+			}
+			for _, p := range prefixes {
+				n++
+				if (n+int(kit.Seed()))%stride != 0 {
+					continue
+				}
+				ft := restic.SnapshotFile
+				via := "find-snapshot"
+				if r.Intn(3) == 0 {
+					ft, via = restic.KeyFile, "find-key"
+				}
+				call(via, ft, ids, p, -1, names, set, uni)
+				// the same question put to the memorized listing (what FindAll / diff resolve against)
+				if uni == 2 || r.Intn(kit.Pick(4, 8)) == 0 {
+					call("find-memorized", ft, ids, p, -1, names, set, uni)
+				}
+				// the listing is interrupted after k delivered entries, for every k: never a match
+				if r.Intn(kit.Pick(12, 24)) == 0 || (uni == 2 && r.Intn(3) == 0) {
+					for k := 0; k <= len(ids); k++ {
+						call("find-interrupted-backend-error", ft, ids, p, k, names, set, uni)
+						call("find-interrupted-context-cancelled", ft, ids, p, k, names, set, uni)
+					}
+				}
+			}
+		}
+	}
+	u := vc57Universe()
 	prefixes := vc57Prefixes(u, kit.Thorough())
 	sets := vc57Sets(len(u), 5)
 	res.Count("prefixes", len(prefixes))
 	res.Count("id_sets", len(sets))
-	r := kit.Rand(57)
-	stride := kit.Pick(2, 1)
-	n := 0
-	ctx := context.Background()
-	for si, set := range sets {
-		order := append([]int{}, set...)
-		rand.New(rand.NewSource(kit.Seed()*977+int64(si))).Shuffle(len(order), func(i, j int) { order[i], order[j] = order[j], order[i] })
-		names := []string{}
-		var ids []restic.ID
-		for _, k := range order {
-			names = append(names, u[k])
-			ids = append(ids, uid[k])
-		}
-		for _, p := range prefixes {
-			n++
-			if (n+int(kit.Seed()))%stride != 0 {
-				continue
+	drive(1, u, prefixes, sets, kit.Pick(2, 1))
+	u2 := vc57Universe2()
+	var p2 []string
+	seen2 := map[string]bool{}
+	for _, id := range u2 {
+		for _, l := range []int{0, 1, 7, 8, 9, 10, 11, 15, 16, 17, 63, 64} {
+			if !seen2[id[:l]] {
+				seen2[id[:l]] = true
+				p2 = append(p2, id[:l])
 			}
-			ft := restic.SnapshotFile
-			via := "find-snapshot"
-			if r.Intn(3) == 0 {
-				ft, via = restic.KeyFile, "find-key"
-			}
-			got, class := "", ""
-			func() {
-				defer func() {
-					if rec := recover(); rec != nil {
-						class, got = "panic", ""
-						res.Count("panics", 1)
-					}
-				}()
-				id, err := restic.Find(ctx, &vc57Lister{t: ft, ids: ids}, ft, p)
-				class = vc57Class(err)
-				if err == nil {
-					got = id.String()
-				} else if !id.IsNull() {
-					got = id.String() // an ID returned together with an error
-				}
-			}()
-			recs.Write(map[string]any{"via": via, "ids": names, "prefix": p, "res": got, "err": class})
-			matches := 0
-			for _, nm := range names {
-				if strings.HasPrefix(nm, p) {
-					matches++
-				}
-			}
-			res.Case(fmt.Sprintf("%v|%s|%q", set, via, p), matches > 0)
-			res.Count("outcome_"+class, 1)
 		}
 	}
+	sets2 := vc57Sets(len(u2), 4)
+	res.Count("prefixes_long_common", len(p2))
+	res.Count("id_sets_long_common", len(sets2))
+	drive(2, u2, p2, sets2, 1)
 	res.Sample(map[string]any{"ids": []string{u[2], u[3]}, "prefix": u[2][:63], "expect": "multiple"})
 }
